@@ -12,6 +12,9 @@
 (*  index : get_coord_index = range check on [min, max], then              *)
 (*          get_slice_bound(v, "right") - 1 ; the bound is a scan          *)
 (*  set   : set_value_at_pos = one lookup per queried dimension, one write *)
+(*          on an array object with a layout (registration order of the    *)
+(*          coordinates, transposition, dimension without coordinate) and  *)
+(*          a coordinate dtype; Req does not depend on either.             *)
 (*                                                                         *)
 (* Trim = FALSE is arange alone (history/MC_RangeDim_notrim.cfg: TLC shows  *)
 (* CountWhenWhole failing, i.e. why the removal test is there).            *)
@@ -24,7 +27,12 @@ CONSTANTS NU,        \* use the first NU units of UnitList
           MaxM,      \* stops up to a + MaxM * s/4
           MaxN,      \* axis lengths for lookups
           MaxSize, MaxDims,
-          Trim
+          Trim,
+          TrOnly,    \* also enumerate transposed arrays whose coordinates were registered in the final order
+          AxisBy,    \* "dims": set_value_at_pos takes the axis number from array.dims (get_axis_num)      [the code]
+                     \* "indexes": from the position in list(array.indexes)                  [history: seeded defect sb2]
+          QueryCast  \* "none": the lookup compares the query as given                                      [the code]
+                     \* "coord_dtype": it first converts the query to the coordinate dtype    [history: seeded defect sb1]
 VARIABLES c, pc, i, r
 vars == <<c, pc, i, r>>
 
@@ -43,8 +51,12 @@ RangeCases == {x \in [kind : {"range"}, fn : Fns, s : Units, a4 : Starts, m : 1.
 
 Positions(n) == {Tk * k : k \in 0..(n - 1)} \cup {Tk * k + 1 : k \in 0..(n - 1)} \cup {Tk * k - 1 : k \in 0..(n - 1)}
                 \cup {Tk * k + 4 : k \in 0..(n - 2)} \cup {-4, Tk * (n - 1) + 4}
-IndexCases == {x \in [kind : {"index"}, s : Units, a4 : Starts, n : 1..MaxN, p : -4..(Tk * MaxN), re : BOOLEAN] :
-                 x.p \in Positions(x.n)}
+\* dtype of the coordinate array: float64; int64 / int32 when start and step are integers (np.arange(-2, 4) is a legal
+\* axis); float32 (for the start 0 only, to bound the enumeration)
+Dtypes(s, a4) == {"f8"} \cup (IF s[2] = 1 /\ a4 % 4 = 0 THEN {"i8", "i4"} ELSE {}) \cup (IF a4 = 0 THEN {"f4"} ELSE {})
+IntAxis(x)    == x.dt \in {"i8", "i4"}
+IndexCases == {x \in [kind : {"index"}, s : Units, a4 : Starts, dt : {"f8", "f4", "i8", "i4"}, n : 1..MaxN, p : -4..(Tk * MaxN), re : BOOLEAN] :
+                 x.p \in Positions(x.n) /\ x.dt \in Dtypes(x.s, x.a4)}
 
 SetPositions(n) == {Tk * k : k \in 0..(n - 1)} \cup {Tk * k + 4 : k \in 0..(n - 2)} \cup {-4, Tk * (n - 1) + 4}
 Shapes == UNION {IF d = 1 THEN {<<x>> : x \in 1..MaxSize}
@@ -56,13 +68,33 @@ Queries(sh) == IF Len(sh) = 1 THEN {<<x>> : x \in QOpt(sh[1])}
                ELSE {<<x, y, z>> : x \in QOpt(sh[1]), y \in QOpt(sh[2]), z \in QOpt(sh[3])}
 AllQueried(q) == \A d \in 1..Len(q) : ~IsNone(q[d])
 NoneQueried(q) == \A d \in 1..Len(q) : IsNone(q[d])
+\* Layout of the array object that set_value_at_pos receives.  Its dims are 1..d in this order with sizes sh (the
+\* specification only ever talks about this order).  reg = order in which the coordinates were registered (this is the
+\* order of array.indexes); tr = order of the dims of the array it was transposed from (tr # identity: the data is a
+\* strided view); nc = <<>> or <<d>>: dimension d has no coordinate (it is then absent from array.indexes).
+IdP(d)   == IF d = 1 THEN <<1>> ELSE IF d = 2 THEN <<1, 2>> ELSE <<1, 2, 3>>
+Perms(d) == IF d = 1 THEN {<<1>>} ELSE IF d = 2 THEN {<<1, 2>>, <<2, 1>>}
+            ELSE {<<1, 2, 3>>, <<1, 3, 2>>, <<2, 1, 3>>, <<2, 3, 1>>, <<3, 1, 2>>, <<3, 2, 1>>}
+Layouts(d) == {<<IdP(d), IdP(d)>>} \cup {<<pm, IdP(d)>> : pm \in Perms(d)}            \* coords dict in another order
+              \cup {<<pm, pm>> : pm \in Perms(d)}                                       \* built in order pm, then transposed
+              \cup (IF TrOnly THEN {<<IdP(d), pm>> : pm \in Perms(d)} ELSE {})
+Plain(lay, d) == lay = <<IdP(d), IdP(d)>>
+OnCoords(sh, q) == \A d \in 1..Len(sh) : IsNone(q[d]) \/ (Some(q[d]) % Tk = 0 /\ Some(q[d]) >= 0 /\ Some(q[d]) <= Tk * (sh[d] - 1))
+NoCoord(sh, q) == {<<>>} \cup {<<d>> : d \in {e \in 1..Len(sh) : IsNone(q[e])}}
+\* the new dimensions are explored on a sub-universe: first unit, float64, queries on coordinates
+SetCaseOK(x) == /\ ~NoneQueried(x.q) /\ (x.vm = "array" => ~AllQueried(x.q))
+                /\ (~Plain(<<x.reg, x.tr>>, Len(x.sh)) => x.s = UnitList[1] /\ x.dt = "f8" /\ IsNone(x.nc) /\ OnCoords(x.sh, x.q))
+                /\ (x.dt # "f8" => Plain(<<x.reg, x.tr>>, Len(x.sh)) /\ x.s = UnitList[1] /\ Len(x.sh) <= 2 /\ IsNone(x.nc))
+                /\ (~IsNone(x.nc) => Plain(<<x.reg, x.tr>>, Len(x.sh)) /\ x.s = UnitList[1] /\ x.dt = "f8" /\ OnCoords(x.sh, x.q))
 R0 == [len |-> 0, k |-> "none", v |-> -1, ix |-> <<>>, hit |-> TRUE, after |-> <<>>]
-Init == /\ pc = "start" /\ i = 0 /\ r = R0
+Init == /\ pc = "start" /\ i = 0
         /\ \/ c \in RangeCases
            \/ c \in IndexCases
-           \/ \E s \in SetUnits, sh \in Shapes : \E q \in Queries(sh), vm \in {"scalar", "array"} :
-                 /\ ~NoneQueried(q) /\ (vm = "array" => ~AllQueried(q))
-                 /\ c = [kind |-> "set", s |-> s, sh |-> sh, q |-> q, vm |-> vm]
+           \/ \E s \in SetUnits, sh \in Shapes, dt \in {"f8", "i8", "i4"} :
+              \E q \in Queries(sh), vm \in {"scalar", "array"}, lay \in Layouts(Len(sh)), nc \in NoCoord(sh, q) :
+                 /\ c = [kind |-> "set", s |-> s, dt |-> dt, sh |-> sh, q |-> q, vm |-> vm, reg |-> lay[1], tr |-> lay[2], nc |-> nc]
+                 /\ SetCaseOK(c)
+        /\ r = IF c.kind = "set" THEN [R0 EXCEPT !.ix = [k \in 1..Len(c.sh) |-> <<>>]] ELSE R0
 
 (* ------------------------------------------------------------ range: Impl *)
 Arange == /\ c.kind = "range" /\ pc = "start"
@@ -89,10 +121,16 @@ Check == /\ c.kind = "index" /\ pc = "start"
                          ELSE [r EXCEPT !.k = "int", !.v = c.n]
             ELSE pc' = "scan" /\ r' = r
          /\ UNCHANGED <<c, i>>
+\* The query as the lookup sees it.  On an integer axis (qs = 1, a = a4/4 an integer) values are counted in eighths:
+\* coordinate j at Tk*j*ps, the query at p*ps, both relative to a; absolute value of the query = 2*a4 + p*ps eighths.
+\* Converting it to the integer dtype first truncates toward zero (-1.5 -> -1): the seeded defect sb1.
+KK(x)     == IF IntAxis(x) THEN x.s[1] ELSE 1
+TruncV(V) == IF V >= 0 THEN Tk * (V \div Tk) ELSE -(Tk * ((-V) \div Tk))
+QRel(x)   == IF QueryCast = "coord_dtype" /\ IntAxis(x) THEN TruncV(2 * x.a4 + x.p * KK(x)) - 2 * x.a4 ELSE x.p * KK(x)
 \* get_slice_bound(v, "right"): first position whose coordinate is > v
-Scan  == /\ c.kind = "index" /\ pc = "scan" /\ i < c.n /\ Tk * i <= c.p
+Scan  == /\ c.kind = "index" /\ pc = "scan" /\ i < c.n /\ Tk * i * KK(c) <= QRel(c)
          /\ i' = i + 1 /\ UNCHANGED <<c, pc, r>>
-Found == /\ c.kind = "index" /\ pc = "scan" /\ (i = c.n \/ Tk * i > c.p)
+Found == /\ c.kind = "index" /\ pc = "scan" /\ (i = c.n \/ Tk * i * KK(c) > QRel(c))
          /\ r' = [r EXCEPT !.k = "int", !.v = i - 1] /\ pc' = "done" /\ UNCHANGED <<c, i>>
 
 (* -------------------------------------------------------------- set: Impl *)
@@ -100,18 +138,24 @@ ImplIndex(n, p) == Cardinality({j \in 0..(n - 1) : Tk * j <= p}) - 1          \*
 Before(sh) == [f \in 1..Prod(sh, 1) |-> f]
 ValueOf(x) == IF x.vm = "scalar" THEN <<100>>
               ELSE [f \in 1..Prod([d \in 1..Len(x.sh) |-> IF IsNone(x.q[d]) THEN x.sh[d] ELSE 1], 1) |-> 100 + f]
+\* which axis of the data the index found for dimension d is applied to
+IndexOrder(x) == SelectSeq(x.reg, LAMBDA d : IsNone(x.nc) \/ d # Some(x.nc))          \* list(array.indexes)
+PosIn(sq, d)  == CHOOSE k \in 1..Len(sq) : sq[k] = d
+AxisOf(x, d)  == IF AxisBy = "dims" THEN d ELSE PosIn(IndexOrder(x), d)
+VAt(sh, ix, idx, val) == IF Len(val) = 1 THEN val[1]
+                         ELSE LET k == SlicePos(sh, ix, idx) IN IF k \in 1..Len(val) THEN val[k] ELSE -1
 Lookup == /\ c.kind = "set" /\ pc = "start" /\ i < Len(c.sh)
           /\ LET d == i + 1 IN
-             IF IsNone(c.q[d]) THEN r' = [r EXCEPT !.ix = Append(r.ix, <<>>)] /\ pc' = pc
+             IF IsNone(c.q[d]) THEN r' = r /\ pc' = pc
              ELSE LET p == Some(c.q[d]) IN
                   IF p < 0 \/ p > Last(c.sh[d])
                   THEN r' = [r EXCEPT !.hit = FALSE, !.k = "raise", !.after = Before(c.sh)] /\ pc' = "done"     \* KeyError before any write
-                  ELSE r' = [r EXCEPT !.ix = Append(r.ix, <<ImplIndex(c.sh[d], p)>>)] /\ pc' = pc
+                  ELSE r' = [r EXCEPT !.ix[AxisOf(c, d)] = <<ImplIndex(c.sh[d], p)>>] /\ pc' = pc
           /\ i' = i + 1 /\ UNCHANGED c
 Write == /\ c.kind = "set" /\ pc = "start" /\ i = Len(c.sh)
          /\ r' = [r EXCEPT !.after = [f \in 1..Prod(c.sh, 1) |->
                      LET idx == CHOOSE x \in Cells(c.sh) : Flat(c.sh, x) = f
-                     IN  IF Addressed(r.ix, idx) THEN ValueAt(c.sh, r.ix, idx, ValueOf(c)) ELSE f]]
+                     IN  IF Addressed(r.ix, idx) THEN VAt(c.sh, r.ix, idx, ValueOf(c)) ELSE f]]
          /\ pc' = "done" /\ UNCHANGED <<c, i>>
 
 Next == Arange \/ TrimDrop \/ TrimKeep \/ Check \/ Scan \/ Found \/ Lookup \/ Write
@@ -131,7 +175,7 @@ ImplKeepsAllPoints == (c.kind = "range" /\ Done) => r.len = RangeCount(c.m)     
 \* index
 Cs == Coords(c.n)
 Res == [k |-> r.k, v |-> r.v]
-ScanInv    == (c.kind = "index" /\ pc = "scan") => i <= c.n /\ \A j \in 0..(i - 1) : Tk * j <= c.p
+ScanInv    == (c.kind = "index" /\ pc = "scan") => i <= c.n /\ \A j \in 0..(i - 1) : Tk * j <= c.p    \* (fails under sb1)
 ImplLookup == (c.kind = "index" /\ Done) => LookupOK(IntLe, Cs, c.p, c.re, Res)
 LawBracketUnique == c.kind = "index" => (InRange(IntLe, Cs, c.p) => Cardinality(Brackets(IntLe, Cs, c.p)) = 1)
 LawUpperEdge     == (c.kind = "index" /\ c.p = Last(c.n)) => Index(IntLe, Cs, c.p) = c.n - 1
